@@ -235,10 +235,17 @@ func Finish(verifDir, prop, tier string, seed int64, level, rule string, assumpt
 		return 2
 	}
 	if len(p.Errors) > 0 {
-		for i, e := range p.Errors {
-			if i < 10 {
-				fmt.Fprintf(os.Stderr, "HARNESS-ERROR property=%s %s\n", prop, oneLine(e))
+		seen := map[string]bool{}
+		for _, e := range p.Errors {
+			k := e
+			if len(k) > 60 {
+				k = k[:60]
 			}
+			if seen[k] || len(seen) >= 4 {
+				continue
+			}
+			seen[k] = true
+			fmt.Fprintf(os.Stderr, "HARNESS-ERROR property=%s %s\n", prop, oneLine(e))
 		}
 		if unknown == 0 {
 			return 2
@@ -253,7 +260,7 @@ func Finish(verifDir, prop, tier string, seed int64, level, rule string, assumpt
 func oneLine(s string) string {
 	s = strings.ReplaceAll(s, "\n", " ⏎ ")
 	if len(s) > 600 {
-		s = s[:600] + "…"
+		s = s[:500] + "…"
 	}
 	return s
 }
